@@ -52,7 +52,7 @@ def match_known(hit, known):
     for k in known:
         if k.get("status") != "known":
             continue
-        if k["property"] != hit["prop"]:
+        if hit["prop"] not in k.get("properties", [k.get("property")]):
             continue
         sig = k.get("signature", {})
         r = hit.get("replay") or {}
